@@ -815,10 +815,19 @@ func (g *psGen) neutralBody(maxToks int) {
 	g.dicts = saveDicts
 }
 
+// maybeBind binds the procedure just emitted (bound one-operator bodies are a
+// classic fast-path target).
+func (g *psGen) maybeBind() {
+	if g.t.Bool(1, 4) {
+		g.op("bind")
+	}
+}
+
 func (g *psGen) ctlRepeat() {
 	n := g.t.Small(5)
 	g.emit(strconv.Itoa(n))
 	left := g.body(nil, 5, "")
+	g.maybeBind()
 	g.op("repeat")
 	g.p.HasLoop = true
 	for i := 0; i < n; i++ {
@@ -835,6 +844,7 @@ func (g *psGen) ctlFor() {
 	g.emit(strconv.Itoa(inc))
 	g.emit(strconv.Itoa(lim))
 	left := g.body([]kind{kI}, 5, "")
+	g.maybeBind()
 	g.op("for")
 	g.p.HasLoop = true
 	iters := 0
@@ -864,6 +874,7 @@ func (g *psGen) ctlForall() {
 		}
 		g.emitD("]", true, true)
 		left := g.body([]kind{kX}, 4, "")
+		g.maybeBind()
 		g.op("forall")
 		for i := 0; i < n; i++ {
 			for _, k := range left {
@@ -877,6 +888,7 @@ func (g *psGen) ctlForall() {
 		}
 		g.emitD(g.litStringText(b), true, true)
 		left := g.body([]kind{kI}, 4, "")
+		g.maybeBind()
 		g.op("forall")
 		for range b {
 			for _, k := range left {
